@@ -1,5 +1,6 @@
 //! Shared helpers for the per-property harness binaries (generators + implementation runners).
 //! Every random choice derives from one SplitMix64 state.
+pub mod codec;
 use std::io::{self, BufRead, Write};
 
 pub struct Rng(pub u64);
